@@ -518,7 +518,7 @@ func vectorPropertyTest(t *testing.T, id string, check func(vecCase) string, rul
 		}
 		evalEnum(c, "vector", cs, check, &nviol)
 	})
-	c.rapidStage("rapid", pick(100000, 3000000), func(rt *rapid.T) {
+	c.rapidStage("rapid", pick(320000, 3000000), func(rt *rapid.T) {
 		ver := rapid.SampledFrom([]int{2, 3}).Draw(rt, "version")
 		lvs := []spec.Level{spec.Base, spec.Temporal, spec.Environmental}
 		lv := rapid.SampledFrom(lvs[minLevel:]).Draw(rt, "decoder")
